@@ -82,6 +82,10 @@ def main(argv=None):
     ap.add_argument('--no-evidence', action='store_true')
     ap.add_argument('--dump', default=None, help='write every run digest to this file (selftests)')
     ap.add_argument('--no-shrink', action='store_true')
+    ap.add_argument('--reverse', action='store_true',
+                    help='selftest: execute the runs of each block in reverse order')
+    ap.add_argument('--hashseed-offset', type=int, default=0,
+                    help='selftest: perturb PYTHONHASHSEED (digests of order-dependent runs must move)')
     a = ap.parse_args(argv)
     prop = a.prop
     tier = a.tier if a.tier in ('quick', 'thorough') else 'quick'
@@ -163,8 +167,9 @@ def main(argv=None):
             bi = s // block
             job = {'mode': 'explore', 'prop': prop, 'master': master, 'tier': tier, 'start': s,
                    'end': e, 'known': known_keys, 'replay_dir': replay_dir,
-                   'shrink': not a.no_shrink, 'watchdog_s': 1200}
-            recs, rc, err = run_worker(job, seeds.block_hashseed(master, prop, bi), 1500)
+                   'shrink': not a.no_shrink, 'watchdog_s': 1200, 'reverse': a.reverse}
+            recs, rc, err = run_worker(job, (seeds.block_hashseed(master, prop, bi) +
+                                             a.hashseed_offset) % (2 ** 32), 1500)
             with lock:
                 if recs is None or rc != 0 or not recs or not recs[-1].get('block_done'):
                     harness.append('block %d-%d: worker rc=%s: %s' % (s, e, rc, err[-1500:]))
